@@ -345,7 +345,6 @@ def _walk_source(root):
 
 
 def check(case, ctx):
-    from sqlalchemy import inspect
     from sqlalchemy.exc import InvalidRequestError
     from sqlalchemy.orm import Session
     from sqlalchemy.orm.util import identity_key
